@@ -47,3 +47,19 @@ func (r *Runtime) VerifRuntimeError(name string) string {
 	}
 	return ""
 }
+
+// VerifSwapPending reports whether a load is at (or waiting for) the exclusive section in which a
+// program's VM is replaced: the handle lock cannot be read-locked right now.
+func (r *Runtime) VerifSwapPending() bool {
+	if r.handleMu.TryRLock() {
+		r.handleMu.RUnlock()
+		return false
+	}
+	return true
+}
+
+// VerifFanoutBarrier returns once no line is being handed to the programs' VMs.
+func (r *Runtime) VerifFanoutBarrier() {
+	r.handleMu.Lock()
+	r.handleMu.Unlock() //nolint:staticcheck
+}
